@@ -74,6 +74,13 @@ def build(v):
                     continue
                 object.__setattr__(o, k, bx) if not k.startswith('__') else o.__dict__.__setitem__(k, bx)
             return o
+        if '__table__' in v:
+            return StubTable({build(k): build(x) for k, x in v['__table__']}, v.get('default_present'), build(v.get('default_value')))
+        if '__config__' in v:
+            return StubConfig(v)
+        if '__match__' in v:
+            return StubMatch(build(v['string']), build(v['start']), build(v['end']),
+                             {k: build(g) for k, g in v['groups'].items()})
         if '__reclist__' in v:
             raise NotConstructible('record list')
         raise NotConstructible(str(list(v)[:3]))
@@ -82,6 +89,83 @@ def build(v):
 
 class NotConstructible(Exception):
     pass
+
+
+class StubTable(dict):
+    """A configuration table realising the solver's interpretation (duck-typed dict)."""
+    def __init__(self, d, default_present, default_value):
+        super().__init__(d)
+        self.default_present, self.default_value = default_present, default_value
+
+    def __contains__(self, k):
+        return dict.__contains__(self, k) or (bool(self.default_present) and self.default_value is not None)
+
+    def __missing__(self, k):
+        if self.default_present and self.default_value is not None:
+            return self.default_value
+        raise KeyError(k)
+
+    def get(self, k, d=None):
+        if dict.__contains__(self, k):
+            return dict.__getitem__(self, k)
+        if self.default_present and self.default_value is not None:
+            return self.default_value
+        return d
+
+
+class StubConfig:
+    """A culture configuration that satisfies exactly the declared environment (tables, values, functions);
+    every other attribute is an opaque object."""
+    def __init__(self, v):
+        self._v = v
+        for k, t in v['tables'].items():
+            setattr(self, k, build(t))
+        for k, x in v['values'].items():
+            setattr(self, k, build(x))
+        for k, f in v['funcs'].items():
+            setattr(self, k, self._mk(f))
+
+    @staticmethod
+    def _mk(f):
+        entries = {tuple(e[:-1]): e[-1] for e in f['entries']}
+
+        def fn(*a):
+            return entries.get(tuple(a), f['else'] if f['else'] is not None else 0)
+        return fn
+
+    def __getattr__(self, name):
+        if name.startswith('_'):
+            raise AttributeError(name)
+        return object()
+
+
+class StubMatch:
+    """A regex match stub satisfying R1 (geometry) with the named groups of the counterexample."""
+    def __init__(self, string, start, end, groups):
+        self.string, self._s, self._e, self._g = string, start, end, groups
+
+    def start(self, *a):
+        return self._s
+
+    def end(self, *a):
+        return self._e
+
+    def span(self):
+        return (self._s, self._e)
+
+    def group(self, *names):
+        def one(n):
+            if n == 0:
+                return self.string[self._s:self._e]
+            return self._g.get(n)
+        if not names:
+            return one(0)
+        if len(names) == 1:
+            return one(names[0])
+        return tuple(one(n) for n in names)
+
+    def groupdict(self):
+        return dict(self._g)
 
 
 class _Absent:
